@@ -4,6 +4,7 @@ open SophiaProofs.C03
 #print axioms quoted_clean
 #print axioms quoted_no_panic
 #print axioms quoted_rs_eq
+#print axioms quoted_loop_inv
 #print axioms one_line
 #print axioms read_write_term
 #print axioms read_write_quad
